@@ -1,0 +1,25 @@
+/*******************************************************************************
+* Verification hooks (add-only). Everything here is inert unless the library   *
+* is compiled with -DCLIPPER2_VERIF; without it every macro expands to nothing.*
+*******************************************************************************/
+#ifndef CLIPPER_VERIF_H
+#define CLIPPER_VERIF_H
+
+#ifdef CLIPPER2_VERIF
+namespace Clipper2Lib {
+  class ClipperBase;
+  struct Active;
+  namespace verif {
+    // H1: bookkeeping events of the active edge list (see /verif DESIGN.md 4.3)
+    enum AelEvent { kInsertPair = 0, kInsertOne = 1, kIntersect = 2, kRemovePair = 3, kRemoveOne = 4, kSnapshot = 5 };
+    typedef void (*AelSink)(int event, const ClipperBase* clipper, const Active* edge);
+    inline AelSink& ael_sink() { static thread_local AelSink sink = nullptr; return sink; }
+  }
+}
+#define CLIPPER2_VERIF_AEL(ev, clipper, edge) \
+  do { if (::Clipper2Lib::verif::ael_sink()) ::Clipper2Lib::verif::ael_sink()((ev), (clipper), (edge)); } while (0)
+#else
+#define CLIPPER2_VERIF_AEL(ev, clipper, edge) do {} while (0)
+#endif
+
+#endif  // CLIPPER_VERIF_H
